@@ -75,12 +75,7 @@ func (l layout) real(logical string) (string, bool) {
 	return "", false
 }
 
-func okName(n string) bool {
-	if n == "" || strings.ContainsAny(n, "/\\ \t") || n == "." || n == ".." {
-		return false
-	}
-	return true
-}
+func okName(n string) bool { return okFileName(n) }
 
 func freePort() string {
 	l, err := net.Listen("tcp", "127.0.0.1:0")
@@ -189,6 +184,9 @@ type world struct {
 	seq     int
 
 	transportErrors int // admin requests that died in transport since the child started
+
+	heldPut  *putOp    // a push parked inside its Backup() (op `hold`)
+	heldDone chan resp // its pending answer
 }
 
 var theWorld *world
@@ -245,6 +243,9 @@ type hookCtl struct {
 	stores []string
 	rems   []string
 	reads  int
+
+	parkArmed bool          // the next "read" (first read of a Backup()) parks its goroutine
+	parkCh    chan struct{} // non-nil while a goroutine is parked
 }
 
 func (h *hookCtl) Yield(point string) {
@@ -258,6 +259,14 @@ func (h *hookCtl) Yield(point string) {
 
 func (h *hookCtl) Fault(op, arg string) error {
 	h.mu.Lock()
+	if op == "read" && h.parkArmed {
+		h.parkArmed = false
+		ch := make(chan struct{})
+		h.parkCh = ch
+		h.mu.Unlock()
+		<-ch
+		h.mu.Lock()
+	}
 	switch op {
 	case "store":
 		h.stores = append(h.stores, arg)
@@ -268,6 +277,22 @@ func (h *hookCtl) Fault(op, arg string) error {
 	}
 	h.mu.Unlock()
 	return h.inner.Fault(op, arg)
+}
+
+func (h *hookCtl) armPark() { h.mu.Lock(); h.parkArmed = true; h.mu.Unlock() }
+
+func (h *hookCtl) parked() bool { h.mu.Lock(); defer h.mu.Unlock(); return h.parkCh != nil }
+
+// unpark disarms the trap and lets a parked goroutine continue.
+func (h *hookCtl) unpark() {
+	h.mu.Lock()
+	h.parkArmed = false
+	ch := h.parkCh
+	h.parkCh = nil
+	h.mu.Unlock()
+	if ch != nil {
+		close(ch)
+	}
 }
 
 func (h *hookCtl) yields() int { h.mu.Lock(); defer h.mu.Unlock(); return h.nYield }
